@@ -327,6 +327,32 @@ pub fn judge_late_small_input(to: Fmt, k: usize, first_bytes: usize, acc: &mut A
     }
 }
 
+/// Standard output is a SOCKET whose peer takes k bytes and closes: the same promise as for a pipe.
+pub fn judge_socket(to: Fmt, k: usize, via_stdin: bool, acc: &mut Acc) {
+    acc.evals += 1;
+    let sc = Scratch::new();
+    let data = big_json(3 << 20, to == Fmt::Toml);
+    sc.file("in.json", &data);
+    let argv: Vec<String> = if via_stdin { vec!["-t".into(), to.name().into()] } else { vec!["-t".into(), to.name().into(), "in.json".into()] };
+    let bin = procmon::release_bin();
+    let mk = || Run { bin: &bin, argv: argv.clone(), cwd: sc.path(), stdin: if via_stdin { StdinKind::Bytes(data.clone()) } else { StdinKind::Null }, stdout: StdoutKind::SocketCloseAfter(k), wall_secs: 120, cpu_secs: 60 };
+    let mut out = procmon::run(mk());
+    if out.status == Status::Exit(0) {
+        acc.count("exit_0_observations_confirmed_under_exclusion");
+        out = procmon::run_exclusive(mk());
+    }
+    acc.count("socket_consumer_runs");
+    if matches!(out.status, Status::Timeout | Status::SpawnError(_)) || out.stdout.len() != k {
+        acc.inconclusive += 1;
+        return;
+    }
+    if out.status == Status::Signal(libc::SIGPIPE) && out.stderr.is_empty() {
+        acc.count("socket_killed_by_sigpipe_silently");
+    } else {
+        acc.violation(Violation { sig: format!("stdout a socket whose peer left after {} bytes, to={}: {}", if k == 0 { "0".to_string() } else { "k".to_string() }, to.name(), out.status.show()), case: json!({"socket": true, "to": to.name(), "k": k, "stdin": via_stdin}), observed: format!("status {}, stderr [{}]", out.status.show(), preview(&out.stderr, 200)), expected: "killed by SIGPIPE with nothing on stderr".into() });
+    }
+}
+
 pub fn judge_devfull(to: Fmt, bytes: usize, acc: &mut Acc) {
     acc.evals += 1;
     let sc = Scratch::new();
@@ -547,6 +573,19 @@ pub fn run(ctx: &Ctx) -> i32 {
         judge_devfull_alignment(src, to, pad, acc);
     });
     acc.merge(a_acc);
+    let mut socks = vec![];
+    for to in ALL {
+        for k in [0usize, 1, 4096, 70000] {
+            for via_stdin in [false, true] {
+                socks.push((to, k, via_stdin));
+            }
+        }
+    }
+    let s_acc = crate::par::run(socks.len(), 1, |i, acc| {
+        let (to, k, via_stdin) = socks[i];
+        judge_socket(to, k, via_stdin, acc);
+    });
+    acc.merge(s_acc);
     for name in ["empty", "empty.toml"] {
         for to in ALL {
             judge_devfull_empty_file(name, to, &mut acc);
@@ -575,9 +614,9 @@ pub fn run(ctx: &Ctx) -> i32 {
             judge_late_small_input(to, k, first, &mut acc);
         }
     }
-    let rule = format!("{} closing-pipe runs: the consumer takes exactly k bytes for k in {:?} and closes while more than 1 MiB of output remains, x 4 targets x input layouts (one 3 MiB file, 3 MiB on stdin, ten 400 KiB files so that the failure is also met in the per-input flush), single-table and multi-document inputs, JSON input named explicitly for every case plus (quick) one rotating or (thorough) every other choice of source format JSON/YAML/MessagePack/TOML, named or detected; a matrix source x named/detected x target x small/40 KiB input in which the consumer is gone before stdin delivers anything (failure met in the final flush for small outputs) and the same matrix with stdout on /dev/full (stdin and file) and with stdout on a REGULAR FILE that may not grow (RLIMIT_FSIZE 0 or 10 000 bytes with SIGXFSZ ignored: write(2) fails with EFBIG, like a full file system) and on a full pipe in non-blocking mode (EAGAIN); the consumer-gone matrix once more with SIGPIPE inherited as ignored (xt must still die from it, silently) or blocked in the signal mask (it cannot terminate: a silent failure status, never a panic or status 0); /dev/full runs whose output is a long run of one-byte values and separators shifted by 0..5 (thorough: 0..63) bytes, so that the first failing write lands on every kind of token; a zero-length file (one empty TOML table) on /dev/full; FIFO operands (source x named/detected x target) on /dev/full and with the consumer gone before the FIFO delivers; plus 16 runs with stdout on /dev/full (outputs below and above the 8 KiB buffer) and 15 runs in which the consumer leaves after the first input's output and a second, small input arrives only afterwards (failure met in the per-input flush); distinct non-trivial = distinct (target, k, layout) cases", cs.len(), KS);
+    let rule = format!("{} closing-pipe runs: the consumer takes exactly k bytes for k in {:?} and closes while more than 1 MiB of output remains, x 4 targets x input layouts (one 3 MiB file, 3 MiB on stdin, ten 400 KiB files so that the failure is also met in the per-input flush), single-table and multi-document inputs, JSON input named explicitly for every case plus (quick) one rotating or (thorough) every other choice of source format JSON/YAML/MessagePack/TOML, named or detected; a matrix source x named/detected x target x small/40 KiB input in which the consumer is gone before stdin delivers anything (failure met in the final flush for small outputs) and the same matrix with stdout on /dev/full (stdin and file) and with stdout on a REGULAR FILE that may not grow (RLIMIT_FSIZE 0 or 10 000 bytes with SIGXFSZ ignored: write(2) fails with EFBIG, like a full file system) and on a full pipe in non-blocking mode (EAGAIN); the consumer-gone matrix once more with SIGPIPE inherited as ignored (xt must still die from it, silently) or blocked in the signal mask (it cannot terminate: a silent failure status, never a panic or status 0); /dev/full runs whose output is a long run of one-byte values and separators shifted by 0..5 (thorough: 0..63) bytes, so that the first failing write lands on every kind of token; stdout a connected stream SOCKET whose peer takes 0 / 1 / 4096 / 70 000 bytes and closes (4 targets, file and stdin); a zero-length file (one empty TOML table) on /dev/full; FIFO operands (source x named/detected x target) on /dev/full and with the consumer gone before the FIFO delivers; plus 16 runs with stdout on /dev/full (outputs below and above the 8 KiB buffer) and 15 runs in which the consumer leaves after the first input's output and a second, small input arrives only afterwards (failure met in the per-input flush); distinct non-trivial = distinct (target, k, layout) cases", cs.len(), KS);
     ev::finish(
-        Finish { ctx, level: "fault_enumeration", rule, assumptions: vec!["the kernel's pipe semantics: a write to a pipe whose read end is closed fails with EPIPE".into(), "a run in which the consumer could not obtain k bytes is inconclusive, not a violation".into(), "an 'exit 0 although the consumer had left' observation is confirmed by one more run during which no other process is spawned (a concurrently spawned child briefly holds a copy of the read end)".into()], extra: serde_json::Map::new(), exhaustive: false, min_distinct: 40, must_reach: vec![("killed_by_sigpipe_silently".into(), 40), ("dev_full_runs".into(), 16), ("dev_full_status_1_with_message".into(), 100), ("limited_regular_file_status_1_with_message".into(), 60), ("full_nonblocking_pipe_status_1_with_message".into(), 60), ("consumer_gone_with_sigpipe_ignored".into(), 30), ("sigpipe_blocked_silent_failure_status".into(), 30), ("consumer_gone_first_runs".into(), 100), ("dev_full_alignment_runs".into(), 50), ("dev_full_zero_length_file_runs".into(), 6), ("fifo_input_dev_full_runs".into(), 20), ("fifo_input_consumer_gone_runs".into(), 20), ("source_yaml_detected".into(), 3), ("source_msgpack".into(), 3), ("late_small_input_runs".into(), 15), ("layout_many_files".into(), 5), ("layout_stdin".into(), 5)] },
+        Finish { ctx, level: "fault_enumeration", rule, assumptions: vec!["the kernel's pipe semantics: a write to a pipe whose read end is closed fails with EPIPE".into(), "a run in which the consumer could not obtain k bytes is inconclusive, not a violation".into(), "an 'exit 0 although the consumer had left' observation is confirmed by one more run during which no other process is spawned (a concurrently spawned child briefly holds a copy of the read end)".into()], extra: serde_json::Map::new(), exhaustive: false, min_distinct: 40, must_reach: vec![("killed_by_sigpipe_silently".into(), 40), ("dev_full_runs".into(), 16), ("dev_full_status_1_with_message".into(), 100), ("limited_regular_file_status_1_with_message".into(), 60), ("full_nonblocking_pipe_status_1_with_message".into(), 60), ("consumer_gone_with_sigpipe_ignored".into(), 30), ("socket_killed_by_sigpipe_silently".into(), 24), ("sigpipe_blocked_silent_failure_status".into(), 30), ("consumer_gone_first_runs".into(), 100), ("dev_full_alignment_runs".into(), 50), ("dev_full_zero_length_file_runs".into(), 6), ("fifo_input_dev_full_runs".into(), 20), ("fifo_input_consumer_gone_runs".into(), 20), ("source_yaml_detected".into(), 3), ("source_msgpack".into(), 3), ("late_small_input_runs".into(), 15), ("layout_many_files".into(), 5), ("layout_stdin".into(), 5)] },
         acc,
     )
 }
@@ -586,7 +625,9 @@ pub fn replay(v: &Value) -> i32 {
     let c = &v["case"];
     let mut acc = Acc::default();
     let Some(to) = c["to"].as_str().and_then(Fmt::parse) else { return 2 };
-    if c["fifo_input"].as_bool() == Some(true) {
+    if c["socket"].as_bool() == Some(true) {
+        judge_socket(to, c["k"].as_u64().unwrap_or(0) as usize, c["stdin"].as_bool().unwrap_or(false), &mut acc);
+    } else if c["fifo_input"].as_bool() == Some(true) {
         let Some(src) = c["source"].as_str().and_then(Fmt::parse) else { return 2 };
         judge_fifo_input(src, c["detect"].as_bool().unwrap_or(false), to, c["devfull"].as_bool().unwrap_or(true), c["variant"].as_u64().unwrap_or(0) as usize, &mut acc);
     } else if c["devfull_empty_file"].as_bool() == Some(true) {
